@@ -405,10 +405,8 @@ func H_C05_unmarshal_iface(t *verifrt.T) {
 	accepted := err == nil
 	t.ObserveBool("accepted", accepted)
 	strict := verifref.ValidJSON(orig, verifref.Relax{})
-	ctrl := verifref.ValidJSON(orig, verifref.Relax{CtrlInString: true})
-	lax := verifref.ValidJSON(orig, verifref.Relax{CtrlInString: true})
+	lax := strict // every recorded relaxation of this destination is repaired
 	and, implies := verifrt.And, verifrt.Implies
-	t.Known("D4-raw-control-character-in-string-accepted", and(accepted, !strict, ctrl))
 	// (D5, an embedded NUL ending the input, is repaired: no relaxation for it)
 	t.Assert("accept-only-listed-language", implies(accepted, lax))
 	// a number outside the float64 range is an error for this destination in encoding/json too
